@@ -7,3 +7,4 @@ import DclabModel.Properties.C17
 import DclabModel.Properties.C15
 import DclabModel.Properties.C03
 import DclabModel.Properties.C16
+import DclabModel.Properties.C04
